@@ -97,7 +97,8 @@ func TestC11(t *testing.T) {
 		"remote authorizer, generic contextualizer, generic/jwt/oauth2_introspection authenticators, jwt and client-credentials finalizers and the HTTP cache; " +
 		"the same request 60x, each time a freshly created mechanism and request context: exactly the cache keys and remote calls of the first evaluation. " +
 		"(2) pairs of requests differing in exactly one component (subject id/attribute, rendered payload, one value, credential, forwarded header/cookie value, " +
-		"pipeline output, rule level policy/override, other prototype with the same endpoint) and (3) pairs shifted across component boundaries ((ab,c) vs (a,bc)): " +
+		"pipeline output, rule level policy/override, other prototype with the same endpoint, subject id where no template looks at it, endpoint URL query parts net/url cannot parse) " +
+		"and (3) pairs shifted across component boundaries ((ab,c) vs (a,bc); a value moving from one forwarded header/cookie to another one which is absent): " +
 		"the sequences A,B,A and B,A,B are executed with the recording in-memory cache and with the no-op cache; outcome (error kind, subject, outputs, upstream headers) must be equal per step. " +
 		"A pair is non-trivial when the cache-off outcomes of A and B differ (a wrong reuse is visible); a determinism case is non-trivial when a value was stored and looked up again.")
 	r.Assume("test servers answer as a pure function of the received request (method, URI, Authorization/Cookie/Content-Type/Accept/X-* headers, body)",
